@@ -34,7 +34,8 @@ LEVEL_TEXT = (
 LEVEL_NOTE = "Trusted: virtual loop determinism; the ledger written by the test doubles; single injected cancellation per run."
 ASSUMPTIONS = [
     "a disposable whose enter did not complete (failed or was still suspended) must not be exited (context-manager protocol)",
-    "how several cleanup errors are packaged is free: each must be reachable (identity, group leaf, or cause/context chain)",
+    "how several cleanup errors are packaged is free: each must be reachable (identity, group leaf, or cause / not-suppressed context chain)",
+    "when the BODY was cancelled and a cleanup fails, which of the two the caller sees is free, but the cleanup error must stay reachable from it; cancellations landing during enter or after the body's last instruction are not judged",
     "a disposable's __aexit__ may return True: the scope must not treat that as permission to swallow the body's exception",
 ]
 EXHAUSTIVE_MEANS = "thorough: all (enter, yields, exit) behaviours for <=2 disposables x body outcomes {return, raise}, plus crash points of the cancelled variants"
